@@ -806,6 +806,8 @@ def Replay(path):
             'steps': res['events']}
     verdicts, _, errors = ValidateTraces([line], 'c17replay')
     bad = [v for v in verdicts.values() if not v['ok']]
+    if res['bad']:
+      bad.append(res['bad'])
     print('first difference from the model state:', res['bad'])
   else:
     case = rp['case']
